@@ -53,6 +53,8 @@ type Effects struct {
 	edges map[*ssa.Function][]*ssa.Function
 	reach map[*ssa.Function]map[*ssa.Function]bool
 	impls map[string][]*ssa.Function // iface method full name -> module implementations
+	callersOf map[*ssa.Function][]*ssa.Function
+	owners    map[*ssa.Function][]*ssa.Function
 }
 
 func fieldOf(v ssa.Value) (owner types.Type, field string, ok bool) {
@@ -323,15 +325,100 @@ func (e *Effects) Where(pred func(*Site) bool) []*Site {
 }
 
 // Callers: functions (roots of closures) with a static call to target.
+// Transparent functions are implementation detail: closures, unexported
+// functions / methods, and exported straight-line wrappers (one basic block, e.g.
+// `func (k Keeper) SetX(..) error { return k.X.Set(..) }`).  An effect site inside a
+// transparent function belongs to whoever calls it, so who-may-write / who-may-call
+// tables are indifferent to extracting, inlining or renaming private helpers and
+// to calling a setter wrapper instead of the collection directly.  A transparent
+// function nobody calls (in scope) owns itself.
+func (e *Effects) Transparent(f *ssa.Function) bool {
+	if f.Parent() != nil {
+		return true
+	}
+	if !token.IsExported(f.Name()) {
+		return true
+	}
+	return len(f.Blocks) == 1
+}
+
+// staticCallers: module functions containing a static call (or closure creation) of f.
+func (e *Effects) staticCallers(f *ssa.Function) []*ssa.Function {
+	if e.callersOf == nil {
+		e.callersOf = map[*ssa.Function][]*ssa.Function{}
+		for from, tos := range e.edges {
+			for _, to := range tos {
+				e.callersOf[to] = append(e.callersOf[to], from)
+			}
+		}
+	}
+	return e.callersOf[f]
+}
+
+// Owners: the nearest non-transparent ancestors of f in the static call graph
+// (f itself if it is not transparent or has no caller in scope).
+func (e *Effects) Owners(f *ssa.Function) []*ssa.Function {
+	if o, ok := e.owners[f]; ok {
+		return o
+	}
+	seen := map[*ssa.Function]bool{}
+	res := map[*ssa.Function]bool{}
+	var up func(g *ssa.Function)
+	up = func(g *ssa.Function) {
+		if seen[g] {
+			return
+		}
+		seen[g] = true
+		if g.Parent() != nil {
+			up(g.Parent())
+			return
+		}
+		cs := e.staticCallers(g)
+		if !e.Transparent(g) || len(cs) == 0 {
+			res[g] = true
+			return
+		}
+		for _, c := range cs {
+			up(c)
+		}
+	}
+	up(f)
+	var out []*ssa.Function
+	for g := range res {
+		out = append(out, g)
+	}
+	sort.Slice(out, func(i, j int) bool { return out[i].String() < out[j].String() })
+	if e.owners == nil {
+		e.owners = map[*ssa.Function][]*ssa.Function{}
+	}
+	e.owners[f] = out
+	return out
+}
+
+// SiteOwners: the functions a site is attributed to in tables.
+func (e *Effects) SiteOwners(s *Site) []*ssa.Function { return e.Owners(s.Fn) }
+
+// OwnerNames: short names of the owners of a site.
+func (e *Effects) OwnerNames(s *Site) []string {
+	var out []string
+	for _, f := range e.SiteOwners(s) {
+		out = append(out, fnShort(f))
+	}
+	return out
+}
+
+// Callers: the owners of every function that statically calls target (target's
+// own transparent wrappers are looked through as well).
 func (e *Effects) Callers(target *ssa.Function) []*ssa.Function {
 	seen := map[*ssa.Function]bool{}
 	var out []*ssa.Function
 	for _, s := range e.Sites {
 		if s.Kind == SStatic && s.Target == target {
-			r := s.Root()
-			if !seen[r] {
-				seen[r] = true
-				out = append(out, r)
+			for _, r := range e.Owners(s.Fn) {
+				if !seen[r] {
+					seen[r] = true
+					out = append(out, r)
+				}
 			}
 		}
 	}
